@@ -398,6 +398,26 @@ impl Adapter for Pst13A {
         }
         Some(SparsePolynomial { num_vars: nv, terms })
     }
+    /// elements over (g, gamma_g, standard generator): the two published generators and the one proof mutations use
+    fn key_obs(_ck: &CK<Self>, vk: &VK<Self>, out: &mut Out) {
+        out.input("pbasis", &["G1".into(), ser_hex(&vk.g), ser_hex(&vk.gamma_g), ser_hex(&exp_g::<ark_bls12_381::G1Affine>(Fr::from(1u64)))]);
+        out.input("key_nv", &[vk.num_vars.to_string()]);
+    }
+    fn trapdoor_obs(c: &Case, out: &mut Out) {
+        if let Some(nv) = opt_usize(c.str1("num_vars")) {
+            let (betas, _) = replay(c.u64_1("setup_seed"), nv, |r| <Fr as ark_ff::UniformRand>::rand(r));
+            out.input("betas", &{ let v = fs_to_strs(&betas); if v.is_empty() { vec!["-".into()] } else { v } });
+        }
+    }
+    fn poly_input(i: usize, p: &MVPoly, out: &mut Out) { out.input(&format!("cpoly.{}", i), &mv_tokens(p)); }
+    fn comm_obs(i: usize, cm: &Cm<Self>, st: &St<Self>, out: &mut Out) {
+        out.obs(&format!("c.{}", i), "L:pbasis", &[ser_hex(&cm.comm.0)]);
+        out.input(&format!("blind.{}", i), &mv_tokens(&st.blinding_polynomial));
+    }
+    fn proof_obs(name: &str, pf: &Pf<Self>, out: &mut Out) {
+        out.obs(&format!("{}.w", name), "L:pbasis", &{ let v: Vec<String> = pf.w.iter().map(ser_hex).collect(); if v.is_empty() { vec!["-".into()] } else { v } });
+        out.obs1(&format!("{}.rv", name), "F", match pf.random_v { Some(r) => f_to_str(&r), None => "none".into() });
+    }
     fn comm_lin(a: Fr, c1: &Cm<Self>, b: Fr, c2: &Cm<Self>) -> Option<Cm<Self>> { marlin_comm_lin(a, c1, b, c2) }
     fn comm_is_identity(c: &Cm<Self>) -> Option<bool> { use ark_ec::AffineRepr; Some(c.comm.0.is_zero()) }
     /// C08: sum over the terms of coefficient * powers_of_g[term]
@@ -421,6 +441,19 @@ impl Adapter for Pst13A {
         }
         Some(p)
     }
+}
+
+/// term list of a sparse multivariate polynomial as tokens (coeff k (var pow){k})*, "-" for the zero polynomial
+fn mv_tokens(p: &MVPoly) -> Vec<String> {
+    use ark_poly::multivariate::Term;
+    let mut v: Vec<String> = vec![];
+    for (c, t) in p.terms() {
+        v.push(f_to_str(c));
+        let vp: Vec<(usize, usize)> = t.iter().cloned().collect();
+        v.push(vp.len().to_string());
+        for (var, pow) in vp { v.push(var.to_string()); v.push(pow.to_string()); }
+    }
+    if v.is_empty() { vec!["-".into()] } else { v }
 }
 
 pub struct HyraxA;
